@@ -199,7 +199,11 @@ pub fn execute(cfg: &ExecCfg, ch: &mut Chooser) -> MResult<ExecOut> {
                 if total > cfg.horizon { out.horizon_hit = true; for t in ts.iter_mut() { t.kill(); } done.iter_mut().for_each(|d| *d = true); break; }
                 // ---- choice at this syscall (attacker / fault); scheduler choices are made by the caller
                 let mut inject: Option<i32> = None;
+                // the kernel answers EAGAIN to openat2 by itself whenever anything on the machine renames or mounts during
+                // the call; the library's immediate retry of the identical call is not a new choice point
+                let spurious_retry = ev.name == "openat2" && out.events.last().map(|p| p.w == w && p.name == "openat2" && p.injected.is_none() && p.rval == -(libc::EAGAIN as i64) && p.path == ev.path).unwrap_or(false);
                 match &cfg.mode {
+                    _ if spurious_retry => {}
                     Mode::Attack(muts) if ev.tree_rel => {
                         let enabled: Vec<&Mutation> = muts.iter().filter(|m| m.enabled()).collect();
                         let k = ch.choose(&format!("atk@{}", ev.sig()), 1 + enabled.len() as u32, 1)?;
